@@ -68,6 +68,25 @@ def sh(cmd, env=None, cwd=None, timeout=None, check=True, capture=True):
     return p
 
 
+# VERIF_COVER=<dir>: drivers are built with statement coverage of every gnark-crypto package and write their counters
+# to <dir> (tools/coverage_report.py turns them into the per-package / per-function table of DESIGN.md 11.6)
+COVER_DIR = os.environ.get("VERIF_COVER", "")
+# evidence and replays go to /verif unless the check is pointed at another tree (seeded-change experiments):
+# those runs must not overwrite the evidence of the real tree
+OUT = VERIF if "VERIF_REPO" not in os.environ else os.environ.get("VERIF_OUT", os.path.join(REPO, ".verif-out"))
+_cover_pkgs = []
+
+
+def cover_flags(modfile):
+    if not COVER_DIR:
+        return []
+    os.makedirs(COVER_DIR, exist_ok=True)
+    if not _cover_pkgs:
+        p = sh(["go", "list", "./..."], cwd=REPO, timeout=600)
+        _cover_pkgs.extend(x for x in p.stdout.split() if "/generator" not in x and x.startswith("github.com/"))
+    return ["-cover", "-coverpkg=" + ",".join(_cover_pkgs)]
+
+
 class Ctx:
     def __init__(self, prop, tier, seed):
         self.prop = prop
@@ -114,6 +133,7 @@ class Ctx:
         cmd = ["go", "build", "-tags", ",".join(tags), "-overlay", overlay, "-o", out]
         if race:
             cmd.append("-race")
+        cmd += cover_flags(self.modfile())
         cmd += list(extra_flags) + ["."]
         t = time.time()
         p = sh(cmd, cwd=hdir, timeout=1500, check=False)
@@ -151,6 +171,9 @@ class Ctx:
         return out
 
     def run_harness(self, binary, args, env=None, timeout=1800):
+        if COVER_DIR:
+            env = dict(env or {})
+            env["GOCOVERDIR"] = COVER_DIR
         p = sh([binary] + args, env=env, timeout=timeout, check=False)
         if p.returncode != 0:
             msg = classify_crash(p.stdout or "")
@@ -268,8 +291,8 @@ class Ctx:
                 log("KNOWN-FINDING: property=%s %s: %s" % (self.prop, k["id"], k["what"]))
         replay = None
         if violations:
-            os.makedirs(os.path.join(VERIF, "replays"), exist_ok=True)
-            replay = os.path.join(VERIF, "replays", "%s-seed%d.json" % (self.prop, self.seed))
+            os.makedirs(os.path.join(OUT, "replays"), exist_ok=True)
+            replay = os.path.join(OUT, "replays", "%s-seed%d.json" % (self.prop, self.seed))
             with open(replay, "w") as f:
                 json.dump({"property": self.prop, "seed": self.seed, "tier": self.tier,
                            "rejected": [dict(r, trace=os.path.basename(r["trace"])) for r, _ in violations[:200]]},
@@ -297,8 +320,8 @@ class Ctx:
         ev = {"property_id": self.prop, "tier": self.tier, "seed": self.seed, "level": level, "coverage": cov,
               "assumptions": list(assumptions) + self.notes, "wall_s": round(time.time() - self.t0, 1),
               "violations": len(violations)}
-        os.makedirs(os.path.join(VERIF, "evidence"), exist_ok=True)
-        with open(os.path.join(VERIF, "evidence", self.prop + ".json"), "w") as f:
+        os.makedirs(os.path.join(OUT, "evidence"), exist_ok=True)
+        with open(os.path.join(OUT, "evidence", self.prop + ".json"), "w") as f:
             json.dump(ev, f, indent=1)
         log("%s tier=%s seed=%d: %d MC runs (%d states), %d traces / %d events validated, %d rejected (%d known), %.0fs" %
             (self.prop, self.tier, self.seed, len(self.mc), sum(m["distinct"] for m in self.mc), len(self.tv),
